@@ -151,6 +151,10 @@ def c01(run: Run):
     t = run.tier
     mats = core.gen_material("lzma", run.seed, sizes(t, 150, 2500)) + \
         core.gen_material("lzmawrap", run.seed, sizes(t, 5, 40))
+    # exhaustive small scope: every well-formed program of <= 4 symbols over an 8-symbol alphabet, dict 1..3
+    exh = core.gen_material("lzmaexh", 1, 1)
+    mats += exh if t == "thorough" else exh[run.seed % 7::7]
+    run.extra_cov["exhaustive_small_scope_programs"] = len(exh) if t == "thorough" else len(exh[run.seed % 7::7])
     rng = run.rng
     for m in mats:
         d, out = m["dict"], m["out"]
